@@ -2,6 +2,7 @@ package main
 
 import (
 	"fmt"
+	"sort"
 	"strings"
 
 	"golang.org/x/tools/go/ssa"
@@ -21,6 +22,7 @@ func init() {
 			"R1": "origins(payload.Token) of every Create / takeover Update value == {fresh:<one uuid.New* call site>}; that call is in the function issuing the write or in its caller chain (same activation), not a field load",
 			"R2": "origins of every value stored to the token field outside the constructor are fresh:* only and equal the origins of the written payload token (C02-R1 checks equality per call site)",
 			"R3": "origins(payload.Token) of every refresh Update == {field:token}; origins(payload.ID) == {cfg:InstanceID}",
+			"R6": "every value stored to the revision field that originates in a Create / takeover Update (a write that published a fresh token) is stored by the claim-set unit, which stores that token in the same activation; the only other own-write origin is the refresh Update (which republishes the token field, R3)",
 			"R5": "see C02-R5 (the token store dominates the claim Store(true) in the claim-set unit)",
 			"R4": "OnPromote's token argument is the value stored to the token field (C08-R1); the Token field of the Status() result and Token() load the token field",
 		},
@@ -90,6 +92,53 @@ func checkC05(c *Ctx) {
 	}
 	if nTok < 1 {
 		c.undecided("R2", "instance-floor", nil, "no store to the token field outside the constructor found")
+	}
+
+	// R6: the revision the heartbeat presents belongs to a write that carried the term's token.
+	// The revision of a Create / takeover Update (which published a FRESH token) may enter the
+	// revision field only in the claim-set unit, which stores that token with it; anywhere else
+	// ("our own leftover acquisition re-created the record: adopt its revision") the term keeps
+	// refreshing, under its old token, a record that was published with another one.
+	{
+		ops := map[string]StoreOp{}
+		for _, op := range m.StoreOps() {
+			ops[fmt.Sprintf("ownwrite:%s@%s", op.Call.Call.Method.Name(), m.P.pos(op.Call.Pos()))] = op
+		}
+		for _, f := range m.Funcs {
+			if m.isCtorCode(f) {
+				continue
+			}
+			eachInstr(f, func(in ssa.Instruction) {
+				call, ok := in.(*ssa.Call)
+				if !ok {
+					return
+				}
+				fld, v, ok := m.atomicStore(call)
+				if !ok || fld != m.Revision {
+					return
+				}
+				var foreign []string
+				for k := range m.Origins(v) {
+					op, isWrite := ops[k]
+					if !isWrite {
+						continue
+					}
+					if cls := m.classifyOp(op); cls != "refresh" && !m.inClaimUnit(f) {
+						foreign = append(foreign, cls+" "+k)
+					}
+				}
+				sort.Strings(foreign)
+				key := fmt.Sprintf("revision store #%d in %s belongs to a write under the term token", ordinalOf(f, in, func(x ssa.Instruction) bool {
+					c2, ok := x.(*ssa.Call)
+					if !ok {
+						return false
+					}
+					f2, _, ok := m.atomicStore(c2)
+					return ok && f2 == m.Revision
+				}), shortFn(f))
+				c.check(len(foreign) == 0, "R6", key, in, "revisions of writes that published a fresh token, stored outside the claim-set unit (which stores that token): %v", foreign)
+			})
+		}
 	}
 
 	// R3 (same rule instance as C01-R3): every refresh republishes the token field
